@@ -190,11 +190,12 @@ pub fn worker(cases: &[J], from: usize, out_path: &str) {
     static STARTED: std::sync::atomic::AtomicU64 = std::sync::atomic::AtomicU64::new(0);
     let now = || std::time::SystemTime::now().duration_since(std::time::UNIX_EPOCH).unwrap().as_millis() as u64;
     STARTED.store(now(), std::sync::atomic::Ordering::SeqCst);
+    let limit: u64 = std::env::var("BVH_WATCHDOG_MS").ok().and_then(|s| s.parse().ok()).unwrap_or(20_000);
     std::thread::spawn(move || loop {
         std::thread::sleep(std::time::Duration::from_millis(250));
         let t0 = STARTED.load(std::sync::atomic::Ordering::SeqCst);
         let t = std::time::SystemTime::now().duration_since(std::time::UNIX_EPOCH).unwrap().as_millis() as u64;
-        if t > t0 + 20_000 { eprintln!("watchdog: case exceeded 20 s"); std::process::exit(98); }
+        if t > t0 + limit { eprintln!("watchdog: case exceeded {} ms", limit); std::process::exit(98); }
     });
     for (i, c) in cases.iter().enumerate().skip(from) {
         STARTED.store(now(), std::sync::atomic::Ordering::SeqCst);
@@ -216,13 +217,32 @@ pub fn worker(cases: &[J], from: usize, out_path: &str) {
 }
 
 // ---------------------------------------------------------------- random / corpus-mutated texts
+/// the benchmark programs loop over millions of elements; the property is about crashes, not about heavy computations, so
+/// integer literals of more than four digits keep their first three digits only
+fn shrink_numbers(s: &str) -> String {
+    let cs: Vec<char> = s.chars().collect();
+    let mut out = String::new();
+    let mut i = 0;
+    while i < cs.len() {
+        if cs[i].is_ascii_digit() && (i == 0 || !(cs[i - 1].is_alphanumeric() || cs[i - 1] == '_' || cs[i - 1] == '.')) {
+            let mut j = i;
+            while j < cs.len() && (cs[j].is_ascii_digit() || cs[j] == '_') { j += 1; }
+            let digits: String = cs[i..j].iter().filter(|c| c.is_ascii_digit()).collect();
+            let plain = j >= cs.len() || !(cs[j].is_alphanumeric() || cs[j] == '.');
+            if plain && digits.len() > 4 { out.push_str(&digits[..3]); } else { out.extend(cs[i..j].iter()); }
+            i = j;
+        } else { out.push(cs[i]); i += 1; }
+    }
+    out
+}
+
 fn corpus() -> Vec<String> {
     let mut v = vec![];
     for dir in ["/repo/examples", "/repo/benches"] {
         if let Ok(rd) = std::fs::read_dir(dir) {
             let mut ps: Vec<_> = rd.flatten().map(|e| e.path()).filter(|p| p.extension().map_or(false, |x| x == "blots")).collect();
             ps.sort();
-            for p in ps { if let Ok(s) = std::fs::read_to_string(&p) { v.push(s); } }
+            for p in ps { if let Ok(s) = std::fs::read_to_string(&p) { v.push(shrink_numbers(&s)); } }
         }
     }
     // README snippets (fenced code)
